@@ -56,8 +56,8 @@ def _describe(case):
     text = ""
     if case.get("text"):
         text = ", glyph text=%s" % [" ".join("U+%04X" % c for c in t) for t in case["text"]]
-    return "%s font, %d glyphs, names=%r, cmap=%s, GSUB=[%s]%s" % (
-        case["kind"], case["n"], [_s(x) for x in case["names"]],
+    return "%s font, %d glyphs, names=%r, cmap(format %s)=%s, GSUB=[%s]%s" % (
+        case["kind"], case["n"], [_s(x) for x in case["names"]], case.get("cmf", "4"),
         ["U+%04X->%d" % (c, g) for c, g in case["cmap"]], "; ".join(rules), text)
 
 
@@ -258,7 +258,7 @@ def _generate(ctx):
                 cases.append(c)
 
     w = 4
-    ntr = ctx.pick(320, 3000)
+    ntr = ctx.pick(280, 3000)
     take(ctx.tlc("Names", cfg="NamesGen.cfg", workers=w, simulate=ntr, depth=80, timeout=1500,
                  label="Names generation (simulate, 6 glyphs)"), "generation")
     # a smaller alphabet makes collisions between given names, glyph-list names and ligature names frequent
@@ -276,6 +276,27 @@ def _generate(ctx):
                  files={"NamesG6.cfg": _cfg("NamesGen.cfg", Codes="{65}", MaxN="6", MaxRules="4", RuleTypes="{1, 3}",
                                             PoolSel='"clash"', TextSel='"A"')},
                  label="Names generation (simulate, k-way name collisions)"), "generation (collisions)")
+    # ligature SETS: all ligatures hang off glyph 1 in one subtable, 2..4 components, in every order of
+    # nameable / abandoned at component k / nameable.  No cmap and no colliding names: a glyph is
+    # either named for good or unnamed until a rule names it.
+    take(ctx.tlc("Names", cfg="NamesG7.cfg", workers=w, simulate=ctx.pick(150, 1500), depth=80, timeout=1500,
+                 files={"NamesG7.cfg": _cfg("NamesGen.cfg", Codes="{}", MinN="3", MaxN="4", MinRules="2", MaxRules="4",
+                                            RuleTypes="{4}", LigLens="{2, 3, 4}", LigFirst="1", PoolSel='"own"',
+                                            TextSel='"none"', CmapFormats='{"4"}', Kinds='{"cff"}')},
+                 label="Names generation (simulate, ligature sets)"), "generation (ligature sets)")
+    # ... with single and alternate substitutions chained before, between and behind the ligatures
+    take(ctx.tlc("Names", cfg="NamesG9.cfg", workers=w, simulate=ctx.pick(100, 1000), depth=80, timeout=1500,
+                 files={"NamesG9.cfg": _cfg("NamesGen.cfg", Codes="{}", MinN="3", MaxN="4", MinRules="3", MaxRules="5",
+                                            RuleTypes="{1, 3, 4}", LigLens="{2, 3}", LigFirst="1", PoolSel='"own"',
+                                            TextSel='"none"', CmapFormats='{"4"}', Kinds='{"cff", "ttf"}')},
+                 label="Names generation (simulate, ligature sets and chained substitutions)"),
+         "generation (ligature sets, chained)")
+    # every cmap subtable format the library can pick as best subtable, 1..3 mappings, BMP / astral / both
+    take(ctx.tlc("Names", cfg="NamesG8.cfg", workers=w, simulate=ctx.pick(100, 800), depth=80, timeout=1500,
+                 files={"NamesG8.cfg": _cfg("NamesGen.cfg", Codes="{65, 307, 65536}", MaxN="3", MaxRules="1",
+                                            PoolSel='"tiny"', TextSel='"none"',
+                                            CmapFormats='{"4", "12", "6", "0", "0mac"}')},
+                 label="Names generation (simulate, cmap formats)"), "generation (cmap formats)")
     if not ctx.quick():
         take(ctx.tlc("Names", cfg="NamesG3.cfg", workers=w, simulate=400, depth=80, timeout=1500,
                      files={"NamesG3.cfg": _cfg("NamesGen.cfg", Codes="{102, 105, 64257}", MaxN="4", MaxRules="2")},
@@ -326,7 +347,12 @@ def _names(ctx, binp):
             for cid in sorted(set(ids), key=lambda i: _rank(by_id[i]))[:3]:
                 if cid not in pick:
                     pick.append(cid)
-        reported = _replay_names(ctx, [by_id[i] for i in pick], want=set(classes), procs=procs)
+        reported = set()
+        for attempt in range(4):     # an answer that differs between identical calls may need another try
+            todo = set(classes) - reported
+            if not todo:
+                break
+            reported |= _replay_names(ctx, [by_id[i] for i in pick], want=todo, procs=procs)
         for key in sorted(set(classes) - reported):
             ctx.notes.append("failure class %s (%d descriptions) did not reproduce when re-recorded"
                              % (list(key), len(set(classes[key]))))
